@@ -1,0 +1,90 @@
+// Verification contracts (comment-only, compiled only with the "verif" build tag; read by /verif/govc).
+
+//go:build verif
+// +build verif
+
+package rawdb
+
+// Contracts for accessors_chain.go / accessors_indexes.go — property C11 (canonical chain index).
+//
+// The persistent chain index is modelled by ghost variables; each writer's contract is its GHOST EFFECT, verified against
+// the body: exactly one Put, on every normal return (a failed Put ends the process: logging.Crit), under the right key
+// and with the hash it was given. The key-value store itself (youdb) is outside the model: Put is durable and atomic
+// (DESIGN §6.6), so a crash leaves a prefix of the Puts issued, i.e. a prefix of the ghost updates.
+
+//@ ghost var c11DBCanon: map[int]common.Hash      // number -> hash index ("h" + num + "n")
+//@ ghost var c11DBHead: common.Hash               // head block marker ("LastBlock")
+//@ ghost var c11DBHeadHeader: common.Hash         // head header marker ("LastHeader")
+//@ ghost var c11DBPuts: int                       // number of Puts issued through the chain accessors below
+
+// key of the number->hash index: an uninterpreted function of the number (schema.go:88, prefix + big-endian number + suffix)
+//@ spec func c11CanonKey(n: int) []byte
+//@ func headerHashKey props C11
+//@ nobody
+//@ pure
+//@ ensures result == c11CanonKey(number)
+
+//@ func (DatabaseWriter).Put props C11
+//@ trusted
+//@ pure
+
+//@ spec func c11IsHash(s: []byte, h: common.Hash) bool = len(s) == 32 && (forall i: int :: { s[i] } 0 <= i && i < 32 ==> s[i] == h[i])
+
+//@ func WriteCanonicalHash props C11
+//@ requires [nonnil] db != nil
+//@ modifies c11DBCanon, c11DBPuts
+//@ assert before call (DatabaseWriter).Put: [key-and-value] a0 == c11CanonKey(number) && c11IsHash(a1, hash)
+//@ ghost after call (DatabaseWriter).Put: c11DBCanon := store(c11DBCanon, number, hash)
+//@ ghost after call (DatabaseWriter).Put: c11DBPuts := c11DBPuts + 1
+//@ ensures [index-updated] c11DBCanon == store(old(c11DBCanon), number, hash)
+//@ ensures [one-put] c11DBPuts == old(c11DBPuts) + 1
+
+//@ func WriteHeadBlockHash props C11
+//@ requires [nonnil] db != nil
+//@ modifies c11DBHead, c11DBPuts
+//@ assert before call (DatabaseWriter).Put: [key-and-value] a0 == headBlockKey && c11IsHash(a1, hash)
+//@ ghost after call (DatabaseWriter).Put: c11DBHead := hash
+//@ ghost after call (DatabaseWriter).Put: c11DBPuts := c11DBPuts + 1
+//@ ensures [head-updated] c11DBHead == hash
+//@ ensures [one-put] c11DBPuts == old(c11DBPuts) + 1
+
+//@ func WriteHeadHeaderHash props C11
+//@ requires [nonnil] db != nil
+//@ modifies c11DBHeadHeader, c11DBPuts
+//@ assert before call (DatabaseWriter).Put: [key-and-value] a0 == headHeaderKey && c11IsHash(a1, hash)
+//@ ghost after call (DatabaseWriter).Put: c11DBHeadHeader := hash
+//@ ghost after call (DatabaseWriter).Put: c11DBPuts := c11DBPuts + 1
+//@ ensures [head-header-updated] c11DBHeadHeader == hash
+//@ ensures [one-put] c11DBPuts == old(c11DBPuts) + 1
+
+// Stored blocks: header and body records, keyed by block hash. WriteBody / WriteHeader encode (RLP) and Put; their
+// ghost effects are ASSUMED (`nobody`); WriteBlock is verified to issue both for the block's own hash.
+//@ ghost var c11DBBody: map[common.Hash]bool
+//@ ghost var c11DBHeader: map[common.Hash]bool
+
+//@ func WriteBody props C11
+//@ nobody
+//@ modifies c11DBBody
+//@ ensures c11DBBody == store(old(c11DBBody), hash, true)
+
+//@ func WriteHeader props C11
+//@ nobody
+//@ modifies c11DBHeader
+//@ ensures c11DBHeader == store(old(c11DBHeader), c11HeaderHash(header), true)
+
+//@ func WriteBlock props C11
+//@ requires [nonnil] db != nil && block != nil && block.header != nil && block.header.Number != nil
+//@ modifies c11DBBody, c11DBHeader
+//@ ensures [body-stored] c11DBBody == store(old(c11DBBody), c11Hash(block), true)
+//@ ensures [header-stored] c11DBHeader == store(old(c11DBHeader), c11Hash(block), true)
+
+// WriteTxLookupEntries / WriteReceipts: one Put per transaction / one Put; ASSUMED frames (nothing of the modelled index).
+//@ func WriteTxLookupEntries props C11
+//@ nobody
+//@ pure
+//@ func WriteReceipts props C11
+//@ nobody
+//@ pure
+//@ func DeleteTxLookupEntry props C11
+//@ nobody
+//@ pure
